@@ -173,7 +173,7 @@ func runC13(c *Ctx) {
 		if !s.IsRunnerMethod(f) || f.Parent() != nil {
 			continue
 		}
-		if len(DirectSites(f, MapDeleteOn("d", s.FProcesses))) == 0 || len(DirectSites(f, MapUpdateOn("w", s.FProcesses))) == 0 {
+		if !s.isRenameFn(f) {
 			continue
 		}
 		nRen++
@@ -669,19 +669,86 @@ func (s *Sel) checkRenameKeepsRecord(c *Ctx, rule string, f *ssa.Function) {
 	nameFld := p.Field("types", "ProcessState", "Name")
 	nameStore := p.Deep(StoreTo("state.Name", nameFld))
 	n := 0
-	for _, in := range DirectSites(f, MapUpdateOn("w", s.FStates)) {
-		mu, ok := in.(*ssa.MapUpdate)
-		if !ok {
-			continue
+	// the insertion is in the rename function or in a helper it calls
+	cands := []*ssa.Function{f}
+	for d := 0; d < 2; d++ {
+		for _, g := range append([]*ssa.Function{}, cands...) {
+			AllInstrs(g, func(in ssa.Instruction) {
+				if call, ok := in.(*ssa.Call); ok {
+					if sc := call.Call.StaticCallee(); sc != nil && s.IsRunnerMethod(sc) && len(sc.Blocks) > 0 {
+						cands = appendUniq(cands, sc)
+					}
+				}
+			})
 		}
-		n++
-		_, isCopy := stripConv(mu.Value).(*ssa.Alloc)
-		c.Check(!isCopy, rule, "rename:same-record", p.InstrPos(mu), "the registered record itself is moved", "the rename function registers a copy of the state record under the new name: the instance keeps updating the original, so after it ends the registry reports the state frozen at rename time (e.g. Running with a stale exit code)")
-		before := MustPrecede(f, nameStore, func(x ssa.Instruction) bool { return x == in }, nil)
-		after := MustFollow([]Pt{after(in)}, nameStore, nil)
-		c.Check(before.OK || after.OK, rule, "rename:name-on-every-path", p.InstrPos(mu), "the record's name is updated whenever it is moved", "the state record is moved to the new key on a path that does not update its Name (e.g. only when an instance is registered): a finished or disabled survivor is listed under its old name and cannot be addressed by the listed name")
+	}
+	for _, g := range cands {
+		for _, in := range DirectSites(g, MapUpdateOn("w", s.FStates)) {
+			mu, ok := in.(*ssa.MapUpdate)
+			if !ok {
+				continue
+			}
+			n++
+			c.Touch(g)
+			_, isCopy := stripConv(mu.Value).(*ssa.Alloc)
+			c.Check(!isCopy, rule, "rename:same-record", p.InstrPos(mu), "the registered record itself is moved", "the rename function registers a copy of the state record under the new name: the instance keeps updating the original, so after it ends the registry reports the state frozen at rename time (e.g. Running with a stale exit code)")
+			okName := false
+			before := MustPrecede(g, nameStore, func(x ssa.Instruction) bool { return x == in }, nil)
+			after1 := MustFollow([]Pt{after(in)}, nameStore, nil)
+			if before.OK || after1.OK {
+				okName = true
+			} else if g != f {
+				// judged around the call of the helper in the rename function
+				for _, cs := range DirectSites(f, CallOfFn("helper", g)) {
+					b2 := MustPrecede(f, nameStore, func(x ssa.Instruction) bool { return x == cs }, nil)
+					a2 := MustFollow([]Pt{after(cs)}, nameStore, nil)
+					if b2.OK || a2.OK {
+						okName = true
+					}
+				}
+			}
+			c.Check(okName, rule, "rename:name-on-every-path", p.InstrPos(mu), "the record's name is updated whenever it is moved", "the state record is moved to the new key on a path that does not update its Name (e.g. only when an instance is registered): a finished or disabled survivor is listed under its old name and cannot be addressed by the listed name")
+		}
 	}
 	if n == 0 {
 		c.Bad(rule, "rename:state-insert", FirstPos(p, f), "the rename function does not insert the state record under the new name")
 	}
+}
+
+// isRenameFn: a runner method (not a closure) that moves an entry of project.Processes and of processStates to
+// another key (delete + insert, directly or in helpers) and none of whose runner callees does both itself.
+func (s *Sel) isRenameFn(f *ssa.Function) bool {
+	p := s.p
+	if !s.IsRunnerMethod(f) || f.Parent() != nil {
+		return false
+	}
+	moves := func(g *ssa.Function) bool {
+		for _, fld := range []*types.Var{s.FProcesses, s.FStates} {
+			if !p.Deep(MapDeleteOn("d", fld)).May(g) || !p.Deep(MapUpdateOn("w", fld)).May(g) {
+				return false
+			}
+		}
+		return true
+	}
+	if !moves(f) {
+		return false
+	}
+	nStr := 0
+	for i := 0; i < f.Signature.Params().Len(); i++ {
+		if b, ok := f.Signature.Params().At(i).Type().Underlying().(*types.Basic); ok && b.Info()&types.IsString != 0 {
+			nStr++
+		}
+	}
+	if nStr < 2 {
+		return false
+	}
+	minimal := true
+	AllInstrs(f, func(in ssa.Instruction) {
+		if call, ok := in.(*ssa.Call); ok {
+			if sc := call.Call.StaticCallee(); sc != nil && sc != f && s.IsRunnerMethod(sc) && len(sc.Blocks) > 0 && moves(sc) {
+				minimal = false
+			}
+		}
+	})
+	return minimal
 }
